@@ -122,6 +122,8 @@ impl Cfg {
         let mut labels = HashMap::new();
         let mut nodes = Vec::new();
         let mut current_labels = HashSet::new();
+        // The same labels in the order in which they are written
+        let mut current_label_order = Vec::new();
         let mut all_labels = HashSet::new();
 
         let label_names = old_nodes.label_names();
@@ -160,7 +162,9 @@ impl Cfg {
         for node in old_nodes {
             match node {
                 ParserNode::Label(s) => {
-                    current_labels.insert(s.name.clone());
+                    if current_labels.insert(s.name.clone()) {
+                        current_label_order.push(s.name.clone());
+                    }
 
                     // Check for duplicate labels
                     if !all_labels.insert(s.name.clone()) {
@@ -205,6 +209,8 @@ impl Cfg {
                             segment,
                         ));
 
+                        rc_node.set_labels_in_order(std::mem::take(&mut current_label_order));
+
                         // Add the node to the graph
                         nodes.push(Rc::clone(&rc_node));
 
@@ -221,6 +227,8 @@ impl Cfg {
                     } else {
                         let rc_node =
                             Rc::new(CfgNode::new(node.clone(), current_labels.clone(), segment));
+
+                        rc_node.set_labels_in_order(std::mem::take(&mut current_label_order));
 
                         // Add the node to the graph
                         nodes.push(Rc::clone(&rc_node));
